@@ -41,6 +41,7 @@ from rs2v.driver import translate, TranslateError   # noqa: E402
 from rs2v.emit import EmitError                      # noqa: E402
 from rs2v.rparser import parse_file, find_items, ParseError, type_name, N   # noqa: E402
 from rs2v.lexer import LexError   # noqa: E402
+from rs2v.imports import resolve_uses, UseError   # noqa: E402
 
 U8, BOOL = ("int", "u8"), ("bool",)
 ANSI = ("enum", "AnsiColor")
@@ -411,6 +412,24 @@ def check_enum(items, name, expected):
         raise TranslateError("enum %s: variants %r, the vocabulary models %r" % (name, got, expected))
 
 
+def read_src(gm, rel):
+    """the source with its `use` declarations resolved (tools/rs2v/imports.py): `use anstyle::AnsiColor;` + `AnsiColor::Red` is read
+    as `anstyle::AnsiColor::Red`, file-wide or inside one function; what cannot be resolved exactly (a glob import, an imported
+    name that is also a local) stays a GEN-ERROR.  A source without `use` is returned as it is."""
+    src = gm.read(rel)
+    try:
+        return resolve_uses(src)
+    except (UseError, LexError) as e:
+        raise TranslateError("%s: `use` item: the vocabulary reads every path in full, and %s" % (rel, e))
+
+
+def anstyle_color_src(gm):
+    """crates/anstyle/src/color.rs as an `inline_sources` entry: a method of anstyle's own colour types that an adapter calls
+    (`color.is_bright()`) and that is neither vocabulary nor a function of the adapter is INLINED from its source (emit.py
+    `local_method`: the `impl` of the receiver's type), i.e. tied to what anstyle really does, not to a name"""
+    return gm.read("crates/anstyle/src/color.rs")
+
+
 def check_file(gm, rel, src, items, vocab):
     """no `use` / `type` / `macro_rules` (they would change what a path means; the parser skips them), then check_paths"""
     m = re.search(r"^\s*(?:pub(?:\([^)]*\))?\s+)?(use|type|extern|macro_rules)\b", gm.strip_comments(src), re.M)
@@ -495,15 +514,16 @@ def register(generators, gm):
             out = [HEADER, REQ, ""]
             for lib in ("ansi_term", "crossterm", "owo", "termcolor", "yansi"):
                 d = LIBS[lib]
-                src = gm.read(d["src"])
+                src = read_src(gm, d["src"])
                 v = lib_vocab(lib, bits)
+                v["inline_sources"] = [anstyle_color_src(gm)]
                 check_file(gm, d["src"], src, parse(d["src"], src), v)
                 out.append("(* ---- %s ---- *)" % d["src"])
                 try:
                     out.append(translate(src, v, [(f, None, g, {}) for f, g in d["targets"]], "", "", {}).strip("\n") + "\n")
                 except TranslateError as e:
                     raise TranslateError("%s: %s" % (d["src"], e))
-            src = gm.read(SYNTECT_SRC)
+            src = read_src(gm, SYNTECT_SRC)
             v = syntect_vocab(bits)
             check_file(gm, SYNTECT_SRC, src, parse(SYNTECT_SRC, src), v)
             out.append("(* ---- %s ---- *)" % SYNTECT_SRC)
